@@ -271,6 +271,34 @@ pub enum AnyStore {
     ArcMutexRef(Arc<tokio::sync::Mutex<RefStore>>),
 }
 
+/// A lock on a shared store held by "somebody else" (another handle on the same Arc) for a while: what a
+/// concurrent ceremony meets when it reaches a store call.
+pub enum HeldLock {
+    MemW(tokio::sync::OwnedRwLockWriteGuard<MemoryStore>),
+    MemR(tokio::sync::OwnedRwLockReadGuard<MemoryStore>),
+    RefW(tokio::sync::OwnedRwLockWriteGuard<RefStore>),
+    RefR(tokio::sync::OwnedRwLockReadGuard<RefStore>),
+    MemM(tokio::sync::OwnedMutexGuard<MemoryStore>),
+    RefM(tokio::sync::OwnedMutexGuard<RefStore>),
+    OptM(tokio::sync::OwnedMutexGuard<Option<Passkey>>),
+}
+
+impl AnyStore {
+    /// Take the lock of a shared (Arc) store from outside, `write` = exclusive where the lock distinguishes.
+    pub fn hold(&self, write: bool) -> Option<HeldLock> {
+        match self {
+            AnyStore::ArcRwLockMemory(a) if write => a.clone().try_write_owned().ok().map(HeldLock::MemW),
+            AnyStore::ArcRwLockMemory(a) => a.clone().try_read_owned().ok().map(HeldLock::MemR),
+            AnyStore::ArcRwLockRef(a) if write => a.clone().try_write_owned().ok().map(HeldLock::RefW),
+            AnyStore::ArcRwLockRef(a) => a.clone().try_read_owned().ok().map(HeldLock::RefR),
+            AnyStore::ArcMutexMemory(a) => a.clone().try_lock_owned().ok().map(HeldLock::MemM),
+            AnyStore::ArcMutexRef(a) => a.clone().try_lock_owned().ok().map(HeldLock::RefM),
+            AnyStore::ArcMutexOpt(a) => a.clone().try_lock_owned().ok().map(HeldLock::OptM),
+            _ => None,
+        }
+    }
+}
+
 macro_rules! any_store {
     ($self:expr, $s:ident => $e:expr) => {
         match $self {
